@@ -42,14 +42,11 @@ static void c08_free(void *p);
 #include "lib/sqfs/src/block_processor/block_processor.c"
 #undef free
 
-static struct {
-	sqfs_block_processor_t proc;
-	sqfs_u8 scratch[BS];
-} g_p;
-static struct {
-	worker_data_t w;
-	sqfs_u8 scratch[BS];
-} g_w0, g_w1;
+/* header-only objects: nothing here touches the scratch areas behind them
+ * (their requested sizes are recorded by the alloc_flex contract), and a
+ * byte-wise zeroing of an object with a 4 KiB payload is very expensive */
+static struct { sqfs_block_processor_t proc; } g_p;
+static struct { worker_data_t w; } g_w0, g_w1;
 
 static sqfs_file_t g_file;
 static sqfs_compressor_t g_cmp, g_uncmp, g_cmp_copy0, g_cmp_copy1, g_uncmp_copy;
